@@ -374,8 +374,8 @@ class Erf(MathFunction):
         """Create a new Erf."""
         if isinstance(argument, RealValue | Zero):
             return FloatValue(math.erf(float(argument)))
-        if isinstance(argument, (ConstantValue)):
-            return ComplexValue(math.erf(complex(argument)))
+        # There is no complex error function in the standard library:
+        # erf of a complex literal is kept symbolic
         return MathFunction.__new__(cls)
 
     def __init__(self, argument):
